@@ -8,8 +8,8 @@ from lib.vlib import gN, gbool, glist, gbytes, gopt, gpair, gstring_bytes
 HDR = "From SioV Require Import Base.GoSem Eio.Handshake Eio.HandshakeRace Eio.HandshakeCheck.\n"
 METHODS = {"GET", "POST", "PUT", "DELETE", "OPTIONS"}
 BODY = {"empty": 0, "err": 1, "open": 2, "ok": 3, "payload": 4, "other": 5}
-THEOREMS = ["C17_invalid_is_error_and_pure", "C17_only_a_handshake_changes_the_store",
-            "C17_valid_handshake_fresh", "C17_closed_admits_none", "C17_close_closes_all"]
+THEOREMS = ["C17_invalid_is_error_and_pure", "C17_single_defect_exact_code", "C17_only_a_handshake_changes_the_store",
+            "C17_valid_handshake_fresh", "C17_closed_admits_none", "C17_close_closes_all", "C17_close_then_nothing"]
 
 
 def g_tk(name):
@@ -181,7 +181,7 @@ def matrix_suite(ctx, vh):
 
 def ids_suite(ctx, vh):
     n = 100000 if ctx.quick else 1000000
-    runs = [("seeded", n, ctx.seed % 2 ** 32), ("zero", n // 10, 2 ** 24 - n // 20), ("repeat", n // 10, 2 ** 32 - n // 20)]
+    runs = [("seeded", n, ctx.seed % 2 ** 32), ("zero", n // 20, 2 ** 24 - n // 40), ("repeat", n // 20, 2 ** 32 - n // 40)]
     for rmode, cnt, start in runs:
         rows = ctx.vh_jsonl(vh, "eiohttp", ["-mode", "ids", "-seed", ctx.seed, "-n", cnt, "-rand", rmode, "-start", start])
         if rows is None:
@@ -208,9 +208,11 @@ def ids_suite(ctx, vh):
                           {"kind": "failing-input", "engine": "eiohttp -mode ids -rand %s -start %d -n %d" % (rmode, start, cnt),
                            "case": dup})
         # (b) each id is generate_id(seq, random bytes) and carries 24 bits of the sequence number
-        sample = rows
+        # quick: the first 3000 ids of the run (consecutive) + every 25th of the rest go through the kernel
+        keep = range(len(rows)) if not ctx.quick else sorted(set(range(min(3000, len(rows)))) | set(range(0, len(rows), 25)))
+        sample = [rows[i] for i in keep]
         terms = [gpair(gN(start), gN(i), gN(r["seq"]), gN(int.from_bytes(bytes(r["rnd"]), "big")),
-                       gN(int.from_bytes(r["id"].encode(), "big"))) for i, r in enumerate(sample)]
+                       gN(int.from_bytes(r["id"].encode(), "big"))) for i, r in zip(keep, sample)]
         for r in sample[:: max(1, len(sample) // 2000)]:
             ctx.count(0, nontrivial_key=("id", rmode, r["seq"]))
         badi = eval_multi(ctx, "ids_" + rmode, HDR, terms, ["oracle_idN", "agree_idN"], shard=5000)
@@ -222,13 +224,13 @@ def ids_suite(ctx, vh):
             r = sample[bad_o[0]]
             ctx.violation("generated id %r (sequence number %d, the %d-th of a run started at %d) does not carry the low 24 bits "
                           "of a consecutive sequence number in its last 4 characters (uniqueness among 2^24 consecutive ids "
-                          "rests on this)" % (r["id"], r["seq"], bad_o[0], start),
+                          "rests on this)" % (r["id"], r["seq"], keep[bad_o[0]], start),
                           {"kind": "failing-input", "engine": "eiohttp -mode ids", "case": r})
         elif bad_a:
             r = sample[bad_a[0]]
             ctx.violation("GenerateBase64ID no longer computes the model's generate_id; first differing case %s" % r,
                           {"kind": "correspondence-broken", "suite": "ids/" + rmode,
-                           "theorems": ["C17_ids_distinct_by_seq", "C17_consecutive_ids_distinct"], "case": r}, no_input=True)
+                           "theorems": ["C17_ids_distinct_by_seq", "C17_consecutive_ids_distinct", "C17_ids_rows_distinct"], "case": r}, no_input=True)
     ctx.sample({"suite": "ids", "case": rows[0]})
 
 
@@ -262,7 +264,7 @@ def race_suite(ctx, vh):
     if bad_a and not bad_o:
         ctx.violation("the forced Close race no longer ends as the model Eio/HandshakeRace.v says",
                       {"kind": "correspondence-broken", "suite": "close-race-forced",
-                       "theorems": ["C17_close_race_closes_all"], "case": rows[bad_a[0]]}, no_input=True)
+                       "theorems": ["C17_close_race_closes_all", "C17_close_race_refuses_late"], "case": rows[bad_a[0]]}, no_input=True)
 
 
 def run(ctx):
